@@ -133,14 +133,14 @@ def run_impl(ctx, cases, tag, procs=8, timeout=900):
 def model_verdicts(ctx, cases, results, idx, tag, shard=None):
     """evaluates the cases idx through the model inside Coq; returns {case index: verdict code != 0}"""
     if shard is None:
-        shard = max(8, -(-len(idx) // 14))          # spread over the cores; one coqc per shard
+        shard = max(8, min(60, -(-len(idx) // 14)))          # spread over the cores; one coqc per shard, at most 60 scripts each
 
     def one(s):
         part = idx[s:s + shard]
         body = "From TP Require Import Model.Prelude Extracted Model.Toxics Model.Timed Run.LinkRun.\n"
         for j, i in enumerate(part):
             body += "Eval vm_compute in (%d, case_verdict (%s)).\n" % (j, coq_case(cases[i], results[i]))
-        rc, out = C.coq_eval(ctx, "%s_%d" % (tag, s // shard), body)
+        rc, out = C.coq_eval(ctx, "%s_%d" % (tag, s // shard), body, timeout=1200)
         if rc != 0:
             k = out.find("Error")
             raise C.BuildError("model evaluation failed:\n" + (out[max(0, k - 300):k + 800] if k >= 0 else out[-1500:]))
@@ -537,7 +537,7 @@ def reconf_verdicts(ctx, cases, results, idx, tag, shard=None):
     if not todo:
         return {}, 0
     if shard is None:
-        shard = max(6, -(-len(todo) // 14))
+        shard = max(6, min(40, -(-len(todo) // 14)))
     import re
 
     def one(s):
@@ -545,7 +545,10 @@ def reconf_verdicts(ctx, cases, results, idx, tag, shard=None):
         body = "From TP Require Import Model.Prelude Extracted Model.Toxics Model.Timed Model.Reconf Model.ReconfRun Run.LinkRun Run.ReconfCases.\n"
         for j, (i, ops) in enumerate(part):
             body += "Eval vm_compute in (%d, rverdict (%s)).\n" % (j, coq_rcase(cases[i], results[i], ops))
-        rc, out = C.coq_eval(ctx, "%s_r%d" % (tag, s // shard), body)
+        rc, out = C.coq_eval(ctx, "%s_r%d" % (tag, s // shard), body, timeout=1200)
+        if rc == 124:
+            ctx.notes.append("a shard of %d reconfiguration scripts exceeded the evaluation time limit (search over scheduler choices) and is not counted" % len(part))
+            return {}
         if rc != 0:
             k = out.find("Error")
             raise C.BuildError("model evaluation failed:\n" + (out[max(0, k - 300):k + 800] if k >= 0 else out[-1500:]))
@@ -561,7 +564,7 @@ def reconf_verdicts(ctx, cases, results, idx, tag, shard=None):
     with ThreadPoolExecutor(max_workers=14) as ex:
         for r in ex.map(one, range(0, len(todo), shard)):
             allv.update(r)
-    return allv, len(todo)
+    return allv, len(allv)
 
 
 def reconf_trace(ctx, case, tag="rtrace"):
@@ -609,7 +612,7 @@ def multi_verdicts(ctx, cases, results, idx, tag):
         todo.append((i, ops))
     if not todo:
         return {}, 0
-    shard = max(6, -(-len(todo) // 14))
+    shard = max(6, min(40, -(-len(todo) // 14)))
     import re
 
     def one(s):
@@ -617,7 +620,7 @@ def multi_verdicts(ctx, cases, results, idx, tag):
         body = "From TP Require Import Model.Prelude Extracted Model.Toxics Model.Timed Model.Reconf Model.ReconfRun Model.MultiRun Run.LinkRun Run.ReconfCases.\n"
         for j, (i, ops) in enumerate(part):
             body += "Eval vm_compute in (%d, mverdict (%s)).\n" % (j, coq_mcase(cases[i], results[i], ops))
-        rc, out = C.coq_eval(ctx, "%s_m%d" % (tag, s // shard), body)
+        rc, out = C.coq_eval(ctx, "%s_m%d" % (tag, s // shard), body, timeout=1200)
         if rc != 0:
             k = out.find("Error")
             raise C.BuildError("model evaluation failed:\n" + (out[max(0, k - 300):k + 800] if k >= 0 else out[-1500:]))
